@@ -148,6 +148,29 @@ def r_conversions(chk, P, fo):
             ok = ok and set(k for k in m if k != "else") == set(want)
             d = m.get("else")
             ok = ok and d is not None and d[1] in ("None", "Err")
+            if not ok:
+                # shape-independent fallback: fold the function over a window around the table and the integer extremes (the wide conversions are
+                # separately required to reach the table without a narrowing cast: CAST.from_int / MAP.wide_int)
+                signed = fn.endswith("from_i64")
+                pts = list(range(-3 if signed else 0, 16)) + [255] + ([256, 65535, 65536, (1 << 32) - 1, 1 << 32, (1 << 32) + 1, (1 << 63) - 1] if not fn.endswith("<u8>>::try_from") else [])
+                if signed:
+                    pts += [-(1 << 63), -(1 << 32) - 1, -256]
+                if fn.endswith("from_u32"):
+                    pts = [x for x in pts if 0 <= x < (1 << 32)]
+                if fn.endswith("from_u64"):
+                    pts += [(1 << 64) - 1]
+                ok = True
+                detail = None
+                for v in pts:
+                    try:
+                        r = show(fo.call(fn, [("const", v)]))
+                    except Unknown as e:
+                        r = "unknown: %s" % e
+                    exp_name = want.get(v)
+                    good = (isinstance(r, tuple) and r[0] in ("Option::Some", "Result::Ok") and str(r[1]).endswith("::" + exp_name)) if exp_name else (r in ("Option::None",) or (isinstance(r, tuple) and r[0] == "Result::Err"))
+                    if not good and detail is None:
+                        ok, detail = False, (v, r, exp_name)
+                m = {"fold": detail}
             chk.expect(ok, fn, "%s is not the inverse of the numbering (switch on %s): %s" % (fn, pp(discr), {k: v for k, v in list(m.items())[:14]}), loc=P.loc(fn))
     chk.rule("CAST.from_int", "no narrowing `as` cast of the argument before the table in any numeric conversion", floor=7)
     convs = [n for n in P.fns if ("num_traits::FromPrimitive" in n or "std::convert::TryFrom<u8>" in n) and ("weekday::Weekday" in n or "month::Month" in n) and "{" not in n]
